@@ -25,11 +25,13 @@ use syn::Ident;
 #[path = "../../spec/lib/wgpu_shim.rs"] pub mod wgpu;
 #[path = "../../spec/lib/model_common.rs"] pub mod model_common;
 #[path = "../../spec/lib/print_model.rs"] pub mod print_model;
+#[path = "../../spec/lib/model_types.rs"] pub mod model_types;
 #[path = "../../spec/lib/model_consts.rs"] pub mod model_consts;
 use prelude::*;
 use iter_shims::*;
 use tokens::*;
 use model_common::*;
+use model_types::*;
 use model_consts::*;
 use print_model::*;
 
@@ -112,11 +114,14 @@ pub enum MatrixVectorTypes {
 
 pub mod wgsl {
     use super::*;
-//@stub wgsl.rs::rust_type
+//@stub wgsl.rs::rust_type proved-in=wgsl_types
 «#[verifier::external_body]»
 pub fn rust_type(module: &naga::Module, ty: &naga::Type, format: MatrixVectorTypes) -> «(r:» TokenStream«)
-    requires pre_rust_type(module, ty, format),
-    ensures ts_view(&r) == spec_rust_type(module, ty, format),»
+    requires
+        ty_supported(module, ty), // [C06.type-pre] a type of the module inside the documented feature set: every todo!()/panic! arm below is unreachable
+    ensures
+        ts_view(&r) == rty_toks(module, ty, format), // [C06.type] scalar table; vectors and matrices per representation; atomics -> scalar; fixed arrays keep their length (recursively); structs -> the emitted struct of the same name
+    decreases ty_idx(module, ty),»
 { unimplemented!() }
 //@end
 }
@@ -161,9 +166,10 @@ pub fn pipeline_overridable_constants(module: &naga::Module) -> «(r:» TokenStr
 
     let fields: Vec<_> = overrides
         .iter()
-        .map(|o| «-> (t: TokenStream) requires ov_in(module, *o) ensures ts_view(&t) == override_field(module, *o)» {
+        .map(|o| «-> (t: TokenStream) requires ov_in(module, *o) ensures ts_view(&t) == override_field(module, *o) /* [C12.field] named after the override, of the matching scalar type, Option exactly when the declaration has a default */» {
             let name = Ident::new(o.name.as_ref().unwrap(), Span::call_site());
             // TODO: Do we only need to handle scalar types here?
+            «proof { lemma_override_field_type(module, *o); }»
             let ty = rust_type(module, &module.types[o.ty], MatrixVectorTypes::Rust);
 
             if o.init.is_some() {
